@@ -319,6 +319,8 @@ fn reference_matches(p: &str, f: &str, h: &str) -> Option<(Vec<Option<String>>, 
     Some((names, rt.all_from(0, &hay)))
 }
 
+static C17_HORIZON_HITS: std::sync::atomic::AtomicU64 = std::sync::atomic::AtomicU64::new(0);
+
 pub fn c17(run: &mut Run) -> Stats {
     let thorough = run.thorough();
     let tlen = if thorough { 6 } else { 5 };
@@ -435,6 +437,12 @@ pub fn c17(run: &mut Run) -> Stats {
         .par_iter()
         .fold(Stats::default, |mut st, tpl| {
             for (mi, (re, p, f, h)) in compiled.iter().enumerate() {
+                // a tree on which replace does not return makes every such case burn the whole step horizon;
+                // once that verdict is established the rest adds nothing
+                if C17_HORIZON_HITS.load(std::sync::atomic::Ordering::Relaxed) > 64 {
+                    st.add("skipped_after_violation_budget", 1);
+                    continue;
+                }
                 st.add("evaluations", 1);
                 let text: &str = h;
                 let (names, matches) = &refs[mi];
@@ -465,7 +473,7 @@ pub fn c17(run: &mut Run) -> Stats {
                 }
                 model_all.push_str(&text[last..]);
                 let model_first = model_first.unwrap_or_else(|| text.to_string());
-                let got = subject::guarded(2_000_000, || (re.replace(text, tpl), re.replace_all(text, tpl)));
+                let got = subject::guarded(200_000, || (re.replace(text, tpl), re.replace_all(text, tpl)));
                 st.add("validated", 1);
                 let mut report = |what: &str, e: &str, g: &str, st: &mut Stats| {
                     let case = J::obj()
@@ -492,7 +500,10 @@ pub fn c17(run: &mut Run) -> Stats {
                         }
                     }
                     Outcome::Panic(m) => report("panic in replace", "", &m, &mut st),
-                    Outcome::Fuel => report("replace / replace_all does not return within the step horizon", &model_all, "(2,000,000 matcher steps used)", &mut st),
+                    Outcome::Fuel => {
+                        C17_HORIZON_HITS.fetch_add(1, std::sync::atomic::Ordering::Relaxed);
+                        report("replace / replace_all does not return within the step horizon", &model_all, "(200,000 matcher steps used)", &mut st)
+                    }
                 }
             }
             st
